@@ -26,8 +26,10 @@ if cur: edits.append(cur)
 R, H, ROOT = '/tmp/mut/repo', '/tmp/mut/harness', '/tmp/mut/root'
 os.makedirs('/tmp/mut', exist_ok=True)
 def sh(c): return subprocess.run(c, shell=True, capture_output=True, text=True)
-sh(f'rsync -a --delete --exclude target --exclude .git /repo/ {R}/')
-sh(f'rsync -a --delete --exclude target /verif/harness/ {H}/')
+# -c without -t: files whose content changed get a NEW mtime, so cargo rebuilds them
+# (preserving mtimes would let a stale, previously mutated object survive)
+sh(f'rsync -rlpgoD -c --delete --exclude target --exclude .git /repo/ {R}/')
+sh(f'rsync -rlpgoD -c --delete --exclude target /verif/harness/ {H}/')
 sh(f"sed -i 's#/repo/crates#{R}/crates#' {H}/Cargo.toml")
 shutil.rmtree(ROOT, ignore_errors=True); os.makedirs(ROOT)
 sh(f'cp /verif/known_findings.json {ROOT}/; cp -r /verif/replays {ROOT}/replays; rm -rf {ROOT}/replays/*/found')
